@@ -120,6 +120,16 @@ def plant(d, r, kind, enc, comment=None):
     elif kind == "control-elif":
         ln = d.add("% if cond:" + nl + "x" + nl + "% elif _('" + m + "'):" + nl + "y" + nl + "% endif" + nl)
         exp(ln + 2, "_", m)
+    elif kind == "control-continued":
+        # a control line continued with backslashes: every message is reported on the physical line it is written on
+        m2, m3 = d.msg(w), d.msg(w)
+        kw = r.choice(["if", "for"])
+        head = "% if cond or \\" if kw == "if" else "% for it in [cond, \\"
+        tail = ":" if kw == "if" else "]:"
+        sep = " or" if kw == "if" else ","
+        ln = d.add(head + nl + "    _('" + m + "')" + sep + " \\" + nl + "    ngettext('" + m2 + "', '" + m3 + "', 2)" + tail + nl + "x" + nl + "% end" + kw + nl)
+        exp(ln + 1, "_", m)
+        exp(ln + 2, "ngettext", (m2, m3))
     elif kind == "control-for":
         ln = d.add("% for it in [_('" + m + "')]:" + nl + "${it}" + nl + "% endfor" + nl)
         exp(ln, "_", m)
@@ -213,7 +223,7 @@ def decoy(d, r, kind):
         d.add("%% if _('" + t + "'):" + nl)
 
 
-PLANTS = ["expr", "expr-gettext", "expr-multiline", "expr-two", "filter-arg", "filter-arg-multiline", "signature-multiline", "control-if", "control-elif", "control-for", "code-block", "module-block",
+PLANTS = ["expr", "expr-gettext", "expr-multiline", "expr-two", "filter-arg", "filter-arg-multiline", "signature-multiline", "control-if", "control-elif", "control-for", "control-continued", "code-block", "module-block",
           "def-signature", "block-args", "call-expr", "nsdef-attr", "in-def-body"]
 DECOYS = ["text", "text-tag", "doc", "comment", "escaped-percent"]
 
